@@ -468,6 +468,28 @@ func (f ForkId) Match(ref map[*syntax.CallStm]syntax.CollectionIndex,
 	}
 	result := make(ForkId, len(upstream))
 	for i, src := range upstream {
+		if j := ref[src]; j != nil && j.IndexSource() == nil {
+			// The reference is bound to a concrete fork of the call (for
+			// example an element of a merge which was unrolled at compile
+			// time).  That index wins over a part which the resolving fork
+			// has for the same call statement: two aliased instantiations of
+			// one sub-pipeline share the call statements of its calls, so
+			// the part may belong to a different node.
+			result[i] = &ForkSourcePart{
+				Id: convertForkPart(j),
+				Split: &syntax.SplitExp{
+					Value:  &syntax.MergeExp{MergeOver: src},
+					Call:   src,
+					Source: src,
+				},
+			}
+			if m := result[i].Id.Mode(); src.CallMode() != m &&
+				m != syntax.ModeNullMapCall {
+				// Should not be possible - checked during static analysis.
+				panic(result[i].GoString() + " from " + j.Mode().String())
+			}
+			continue
+		}
 		if r, err := f.matchPart(src); err != nil {
 			if j, ok := ref[src]; ok && j != nil {
 				if j.IndexSource() == nil {
